@@ -22,7 +22,7 @@ pub fn gen_library(r: &mut Rng, big: bool) -> Vec<(String, String)> {
     keys.iter()
         .enumerate()
         .map(|(i, k)| {
-            let dir = Key::from_file_name(k).parent();
+            let dir = crate::oracle::md::dir_of(k);
             let mut text = String::new();
             let nh = if big { r.range(6, 12) } else { r.range(0, 5) };
             let mut level = 0usize;
@@ -73,7 +73,7 @@ fn expected_chains(formatted: &BTreeMap<String, String>) -> Vec<String> {
     let mut top: HashMap<String, Vec<usize>> = HashMap::new();
     let mut referenced: HashSet<String> = HashSet::new();
     for (k, text) in formatted {
-        let dir = Key::from_file_name(k).parent();
+        let dir = crate::oracle::md::dir_of(k);
         let rd = md::read(text, &dir);
         // all block-level references anywhere mark their target as referenced
         for l in &rd.links {
@@ -175,7 +175,7 @@ pub fn check_library(lib: &[(String, String)]) -> Option<String> {
     }
     // full completeness: every heading outside lists and quotes, of every note, ends some listed path
     for (k, text) in &formatted {
-        let dir = Key::from_file_name(k).parent();
+        let dir = crate::oracle::md::dir_of(k);
         for h in md::read(text, &dir).headings.iter().filter(|h| h.ctx.is_empty()) {
             let tail = format!("{}:{}", k, h.text);
             if !got.iter().any(|c| c == &tail || c.ends_with(&format!(" > {}", tail))) {
@@ -233,7 +233,7 @@ fn has_reference_cycle_without_root(lib: &[(String, String)]) -> bool {
     let mut refs: HashMap<String, Vec<String>> = HashMap::new();
     let mut referenced: HashSet<String> = HashSet::new();
     for (k, t) in &st {
-        let dir = Key::from_file_name(k).parent();
+        let dir = crate::oracle::md::dir_of(k);
         for l in md::read(t, &dir).links {
             if l.block_level {
                 let target = md::resolve(&l.dest, &dir);
